@@ -37,8 +37,6 @@ def entry_point_cases(c, rng, quick):
             nPS = rng.choice([1, N])
             nIS = rng.choice([1, N])
             T = rng.choice([0, 1, 1, 5, 12])
-            if T == 0 and name in ('StorageTrapAll', 'InstreamDissolvedNutrientDecay'):
-                T = 1      # these two kernels index element 0 of an empty series (known finding of C04)
             init = 1 if name in ('GR4J', 'Lag') else rng.choice([0, 1])
             pv = []
             for (pn, d, lo, hi, nd) in params:
